@@ -219,6 +219,25 @@ class _PythonFnFactory(object):
     return new_fn
 
 
+def _identifiers_of(node):
+  """All identifiers that appear in an AST."""
+  names = set()
+  for n in ast.walk(node):
+    if isinstance(n, ast.Name):
+      names.add(n.id)
+    elif isinstance(n, ast.arg):
+      names.add(n.arg)
+    elif isinstance(n, (ast.FunctionDef, ast.AsyncFunctionDef, ast.ClassDef)):
+      names.add(n.name)
+    elif isinstance(n, (ast.Global, ast.Nonlocal)):
+      names.update(n.names)
+    elif isinstance(n, ast.ExceptHandler) and isinstance(n.name, str):
+      names.add(n.name)
+    elif isinstance(n, ast.alias):
+      names.add((n.asname or n.name).split('.')[0])
+  return names
+
+
 class GenericTranspiler(object):
   """A generic transpiler for Python functions.
 
@@ -345,6 +364,11 @@ class GenericTranspiler(object):
 
     namespace = inspect_utils.getnamespace(fn)
     namer = naming.Namer(namespace)
+    # No generated symbol may coincide with an identifier of the entity itself.
+    # The reserved sets that callers hand to new_symbol come from activity
+    # scopes, which do not track every name (parameters of nested lambdas,
+    # exception handler names, names used only in nested functions).
+    namer.generated_names.update(_identifiers_of(node))
     new_name = namer.new_symbol(self.get_transformed_name(node), ())
     entity_info = transformer.EntityInfo(
         name=new_name,
